@@ -851,6 +851,29 @@ def m_first(it, ctx, a, m, f):
     return Some(Ref(v, 0 if (m.group(1) or m.group(2)) == 'first' else len(v) - 1))
 
 
+@model(r'^slice::<impl \[.*\]>::(get|get_mut)::<(Range|RangeTo|RangeFrom|RangeFull|RangeInclusive|RangeToInclusive)(<usize>)?>$')
+def m_slice_get_range(it, ctx, a, m, f):
+    v = L(a[0]); r = deref(a[1]); kind = m.group(2)
+    n = len(v)
+    if kind == 'Range':
+        lo, hi = r.fields[0], r.fields[1]
+    elif kind == 'RangeTo':
+        lo, hi = 0, r.fields[0]
+    elif kind == 'RangeFrom':
+        lo, hi = r.fields[0], n
+    elif kind == 'RangeFull':
+        lo, hi = 0, n
+    elif kind == 'RangeToInclusive':
+        lo, hi = 0, r.fields[0] + 1
+    else:
+        raise Unsupported('slice get with ' + kind)
+    if not (isinstance(lo, int) and isinstance(hi, int)):
+        raise Unsupported('symbolic slice range')
+    if lo > hi or hi > n:
+        return NoneV()
+    return Some(v[lo:hi])        # a sub-slice is a copy here: fine for reads (get), not modelled for get_mut writes
+
+
 @model(r'^slice::<impl \[.*\]>::(get|get_mut)::<usize>$')
 def m_get(it, ctx, a, m, f):
     v = L(a[0]); i = a[1]
